@@ -75,9 +75,11 @@ GhostInit(S) ==
     slog     |-> [n \in S |-> EmptyFn],   \* durable log as of the last state line (dlog moves at store events)
     seenTerm |-> [n \in S |-> 0],         \* highest term n was told about by somebody else
     starting |-> {},                      \* servers inside NewRaft (between `restart` and the `started` state line)
-    rcur     |-> [n \in S |-> 0],         \* user Restore call in progress on n (op id, 0 = none)
+    rcur     |-> [n \in S |-> 0],         \* the user Restore call made last on n (op id, 0 = none)
+    rres     |-> EmptyFn,                 \* Restore op id -> its result, once returned
     abOf     |-> EmptyFn,                 \* payload id -> the Restore call that aborted its Apply
     abOK     |-> {},                      \* payload ids aborted by a Restore that returned nil
+    done     |-> {},                      \* client operations that have returned
     abApp    |-> {},                      \* <<server, index, id>>: aborted payloads that reached an FSM
     stopAt   |-> -1,                      \* time faults stopped, -1 if not
     probeOK  |-> FALSE ]
@@ -568,14 +570,24 @@ DoReturn(ln) ==
                     /\ ~(i \in DOMAIN g.agreed /\ g.agreed[i][2] = "cfg")
                  THEN {<<"C03", "AckedConfigNotCommitted", <<n, ln.op, i>>>>} ELSE {}
       \* a Restore that returns nil supersedes the calls it aborted: they were never committed and no FSM may see them
-      isAb   == ln.kind = "apply" /\ ln.err = "AbortedByRestore" /\ g.rcur[n] # 0
-      abOf2  == IF isAb THEN [p \in {ln.arg} |-> g.rcur[n]] @@ g.abOf ELSE g.abOf
+      \* (the order in which the returns of concurrent calls are observed is arbitrary: a call aborted by a Restore
+      \* may be seen to return before or after the Restore itself)
+      isAb   == ln.err = "AbortedByRestore" /\ g.rcur[n] # 0
+      abKey  == IF ln.kind = "apply" THEN ln.arg ELSE ToString(ln.op)
+      abOf2  == IF isAb THEN [p \in {abKey} |-> g.rcur[n]] @@ g.abOf ELSE g.abOf
       okR    == ln.kind = "restore" /\ ok
-      newOK  == IF okR THEN {x \in DOMAIN g.abOf : g.abOf[x] = ln.op} ELSE {}
+      rres2  == IF ln.kind = "restore" THEN [p \in {ln.op} |-> ln.err] @@ g.rres ELSE g.rres
+      Refusals == {"RestoreRefused", "TransferInProgress", "NotLeader"}
+      newOK  == IF okR THEN {x \in DOMAIN g.abOf : g.abOf[x] = ln.op}
+                ELSE IF isAb /\ ln.kind = "apply" /\ g.rcur[n] \in DOMAIN g.rres /\ g.rres[g.rcur[n]] = "" THEN {ln.arg} ELSE {}
       vAb    == {<<"C02", "AbortedEntryApplied", <<a[1], a[2], a[3]>>>> : a \in {x \in g.abApp : x[3] \in newOK}}
+                \* a Restore that is refused has no effect: nobody's call is aborted by it
+                \cup (IF ln.kind = "restore" /\ ln.err \in Refusals /\ {x \in DOMAIN abOf2 : abOf2[x] = ln.op} # {}
+                      THEN {<<"C20", "RefusedRestoreAbortedCalls", <<n, ln.op, ln.err, {x \in DOMAIN abOf2 : abOf2[x] = ln.op}>>>>} ELSE {})
+                \cup (IF isAb /\ g.rcur[n] \in DOMAIN g.rres /\ g.rres[g.rcur[n]] \in Refusals
+                      THEN {<<"C20", "RefusedRestoreAbortedCalls", <<n, g.rcur[n], g.rres[g.rcur[n]], {abKey}>>>>} ELSE {})
       V == vApply \cup vBarrier \cup vVerify \cup vDown \cup vMember \cup vAb
-  IN /\ g' = [g EXCEPT !.abOf = abOf2, !.abOK = @ \cup newOK,
-                       !.rcur[n] = IF ln.kind = "restore" /\ g.rcur[n] = ln.op THEN 0 ELSE @,
+  IN /\ g' = [g EXCEPT !.abOf = abOf2, !.abOK = @ \cup newOK, !.done = @ \cup {ln.op}, !.rres = rres2,
                        !.acked = IF ln.kind = "apply" /\ ok THEN @ \cup {<<ln.op, i, l>>} ELSE @,
                        !.failed = IF ln.kind = "apply" /\ defFail THEN @ \cup {ln.arg} ELSE @,
                        !.probeOK = @ \/ (ln.kind = "apply" /\ ok /\ g.stopAt >= 0 /\ iv.t >= g.stopAt)]
@@ -647,6 +659,10 @@ DoAssertLeader(ln) ==   \* the driver kept a majority of the voters answering ln
   LET V == IF obs[ln.n].up /\ obs[ln.n].role = "L" THEN {} ELSE {<<"C13", "HealthyLeaderDeposed", <<ln.n, obs[ln.n].role, obs[ln.n].term>>>>}
   IN Judge(V, {}) /\ Keep /\ UNCHANGED g
 
+DoAssertDone(ln) ==   \* the driver waited ln.bound_us of virtual time on a running server: the call must have been answered
+  LET V == IF ln.op \in g.done \/ ~obs[ln.n].up THEN {} ELSE {<<"C17", "FutureNotResolvedInBoundedTime", <<ln.n, ln.op, ln.kind, ln.bound_us>>>>}
+  IN Judge(V, {}) /\ Keep /\ UNCHANGED g
+
 DoStranded(ln) ==
   Judge({<<"C17", "FutureNeverResolved", <<ln.n, ln.op, ln.kind, ln.inapi, ln.nodeup>>>>}, {}) /\ Keep /\ UNCHANGED g
 
@@ -683,6 +699,7 @@ Next ==
        [] ln.ev = "quiesce" -> DoQuiesce(ln)
        [] ln.ev = "stranded" -> DoStranded(ln)
        [] ln.ev = "assertleader" -> DoAssertLeader(ln)
+       [] ln.ev = "assertdone" -> DoAssertDone(ln)
        [] ln.ev = "leak"    -> DoLeak(ln)
        [] OTHER             -> DoOther(ln)
 
